@@ -54,6 +54,8 @@ pub enum ModelEvaluatorError {
   InvalidItemDefinitionType(String),
   #[error("item definition `{0}` refers to itself")]
   CyclicItemDefinition(String),
+  #[error("`{0}` requires itself")]
+  CyclicRequirements(String),
   #[error("number of entries in a rule differs from the number of clauses in the decision table")]
   RuleEntriesDifferFromClauses,
   #[error("unsupported FEEL type: {0}")]
@@ -116,6 +118,10 @@ pub fn err_cyclic_item_definition(s: &str) -> DmntkError {
 
 pub fn err_rule_entries_differ_from_clauses() -> DmntkError {
   ModelEvaluatorError::RuleEntriesDifferFromClauses.into()
+}
+
+pub fn err_cyclic_requirements(s: &str) -> DmntkError {
+  ModelEvaluatorError::CyclicRequirements(s.to_string()).into()
 }
 
 pub fn err_unsupported_feel_type(feel_type: FeelType) -> DmntkError {
